@@ -278,6 +278,9 @@ theorem frame_general {s : Store} {c : Forest.XCall} (inv : s.forest.Inv) (hw : 
         have he := isElement_of_mapRemove_ok hok
         simp only [Forest.XCall.writtenParents, List.mem_cons, not_or] at hnw
         exact (getFrame_mapRemove inv he hnw.1 hnw.2).frameAt hl
+      | textContentSet n str =>
+        simp only [Forest.XCall.writtenParents, List.mem_cons, not_or] at hnw
+        exact (getFrame_textContentSet inv hok hl hnw.1 hnw.2).frameAt hl
       | setElementName n name => exact absurd rfl hs
       | setText n t => exact absurd rfl hs
       | setComment n t => exact absurd rfl hs
